@@ -53,12 +53,15 @@ class Scheduler:
         self.trace: List[str] = []
         self.aborting = False
         self.switches = 0
+        self.readers: set = set()       # thread ids whose operations are reads: they must never block or spin
 
     # ---- called from logical threads ---------------------------------------------------
     def point(self, lt: LThread, what: str, blocking: Optional[Tuple] = None, spin: bool = False):
         """a scheduling point *before* the access `what`"""
         if self.aborting:
             raise Abort()
+        if (blocking is not None or spin) and lt.tid in self.readers:
+            raise Violation('read-blocks', 'a read operation (%s) %s: %s' % (lt.name, 'waits for a lock / wake-up' if blocking else 'spins waiting for another thread', what))
         lt.pending = what
         lt.blocked_on = blocking
         if spin:
